@@ -1580,6 +1580,20 @@ theorem pinv_step {s s' : St} {e : Ev} (hi : PInv s) (hk : e ≠ .completeFallba
     (h : step s e = some s') : PInv s' := by
   cases e with
   | completeFallback => exact absurd rfl hk
+  | rearm =>
+    simp only [step] at h
+    split at h
+    · next hf =>
+      cases h
+      have hd := hi.d hf
+      constructor
+      · exact P_congr hi.perm rfl rfl rfl rfl
+      · simp
+      · simp [hd.1, hd.2]
+      · simp
+      · simp
+      · simp
+    · cases h
   | poll =>
     simp only [step] at h
     split at h
